@@ -26,7 +26,7 @@ from dataclasses import dataclass, field
 from typing import Any, Callable, Iterable, Optional
 
 from .absval import (
-    BoundV, CharSet, ClassV, EnumV, FuncV, HObj, IntSet, LambdaV, Opaque, Ref, SeqStr, Text, Unknown, is_concrete, new_text,
+    BoundV, CharSet, ClassV, EnumV, FuncV, HObj, IntSet, LambdaV, OneOf, Opaque, Ref, SeqStr, Text, Unknown, is_concrete, new_text,
 )
 from .core import AnalysisError
 from .pymodel import ClassInfo, FuncInfo, ModuleInfo, PyModel
@@ -123,6 +123,7 @@ class Interp:
         self.max_states = max_states
         self.loop_limit = loop_limit
         self._const_cache: dict[str, Any] = {}
+        self.stmt_hook: Optional[Callable] = None
         self.ctx_stack: list[tuple[ModuleInfo, Optional[ClassInfo]]] = []
         self.depth = 0
         from . import absbuiltins
@@ -282,7 +283,7 @@ class Interp:
                 for k, v in zip(keys, vs):
                     if k is None:
                         if isinstance(v, Ref) and s.obj(v).kind == "dict":
-                            out.update(s.obj(v).fields)
+                            self.B.dict_merge(out, s.obj(v).fields)
                         else:
                             s.note("dict unpack of non-dict")
                     # mixed literal keys are handled below
@@ -368,6 +369,27 @@ class Interp:
         return [(LambdaV(e, dict(st.locals), self.ctx_stack[-1]), st)]
 
     def e_Call(self, e, st):
+        if (
+            isinstance(e.func, ast.Name) and e.func.id in ("all", "any") and len(e.args) == 1 and isinstance(e.args[0], ast.GeneratorExp)
+            and len(e.args[0].generators) == 1 and not e.args[0].generators[0].ifs and isinstance(e.args[0].generators[0].target, ast.Name)
+        ):
+            gen = e.args[0].generators[0]
+            def over(itv, s):
+                if isinstance(itv, Text):
+                    import re as _re
+                    pred = _re.sub(rf"\b{gen.target.id}\b", "_", ast.unparse(e.args[0].elt))
+                    key = (itv.tid, f"{e.func.id}({pred})")
+                    if key in s.facts:
+                        return [(s.facts[key], s)]
+                    s2 = s.fork()
+                    s.facts[key] = True
+                    s2.facts[key] = False
+                    return [(True, s), (False, s2)]
+                return self._call_generic(e, s)
+            return self.bind(self.eval(gen.iter, st), over)
+        return self._call_generic(e, st)
+
+    def _call_generic(self, e, st):
         def f(fv, s):
             pos = [a for a in e.args]
             def g(args, s2):
@@ -387,6 +409,13 @@ class Interp:
             return self.bind(self.eval_list(pos, s), g)
         if isinstance(e.func, ast.Attribute):
             def meth(base, s):
+                if isinstance(base, OneOf):
+                    out = []
+                    for i, a in enumerate(base.alts):
+                        s2 = s if i == len(base.alts) - 1 else s.fork()
+                        self.refine(s2, e.func.value, a)
+                        out.extend(meth(a, s2))
+                    return out
                 if isinstance(base, Opaque):
                     return f(BoundV(base, e.func.attr), s)
                 return self.bind(self.B.getattr_(self, base, e.func.attr, s, e.func), f)
@@ -460,6 +489,13 @@ class Interp:
 
     # -------------------------------------------------------------- conditions
     def truth_fork(self, v: Any, st: State, expr: Optional[ast.expr] = None) -> list[tuple[bool, State]]:
+        if isinstance(v, OneOf):
+            out = []
+            for i, a in enumerate(v.alts):
+                s2 = st if i == len(v.alts) - 1 else st.fork()
+                self.refine(s2, expr, a)
+                out.extend(self.truth_fork(a, s2, None))
+            return out
         t = self.B.truth(self, v, st)
         if t is not None:
             return [(t, st)]
@@ -535,6 +571,20 @@ class Interp:
             st.locals[target.id] = val
         elif isinstance(target, ast.NamedExpr):
             st.locals[target.target.id] = val
+        elif isinstance(target, ast.Attribute):
+            # x.y.z : re-evaluate the (side-effect free) base chain and narrow the field
+            base = target.value
+            ok = True
+            b = base
+            while isinstance(b, ast.Attribute):
+                b = b.value
+            if not isinstance(b, ast.Name):
+                return
+            res = self.eval(base, st)
+            if len(res) == 1 and isinstance(res[0][0], Ref) and res[0][1] is st:
+                h = st.obj(res[0][0])
+                if h.kind == "obj" and target.attr in h.fields:
+                    h.fields[target.attr] = val
 
     # -------------------------------------------------------------- statements
     def assign(self, target: ast.expr, val: Any, st: State) -> Results:
@@ -542,6 +592,12 @@ class Interp:
             st.locals[target.id] = val
             return [(None, st)]
         if isinstance(target, (ast.Tuple, ast.List)):
+            if isinstance(val, Ref) and st.obj(val).cls == "textwords":
+                word = st.obj(val).items[0]
+                res0: Results = [(None, st)]
+                for t in target.elts:
+                    res0 = self.bind(res0, lambda _, s, t=t: self.assign(t, new_text(word.labels, word.kind), s))
+                return res0
             items = self.B.iter_values(self, val, st)
             if items is None:
                 st.note(f"cannot unpack into {ast.unparse(target)}")
@@ -583,6 +639,10 @@ class Interp:
         return [(s, "raise", v) if isinstance(v, Raised) else (s, "fall", None) for v, s in res]
 
     def exec_stmt(self, stmt: ast.stmt, st: State) -> list[tuple[State, str, Any]]:
+        if self.stmt_hook is not None:
+            r = self.stmt_hook(self, stmt, st)
+            if r is not None:
+                return r
         m = getattr(self, "s_" + type(stmt).__name__, None)
         if m is None:
             st.note(f"unsupported statement {type(stmt).__name__}")
@@ -625,7 +685,7 @@ class Interp:
                         self.B.list_extend(s2.obj(cur), items)
                         return [(None, s2)]
                 if isinstance(stmt.op, ast.BitOr) and isinstance(cur, Ref) and s2.obj(cur).kind == "dict" and isinstance(r, Ref) and s2.obj(r).kind == "dict":
-                    s2.obj(cur).fields.update(s2.obj(r).fields)
+                    self.B.dict_merge(s2.obj(cur).fields, s2.obj(r).fields)
                     return [(None, s2)]
                 return self.bind(self.B.binop(self, stmt.op, cur, r, s2, stmt), lambda v, s3: self.assign(stmt.target, v, s3))
             return self.bind(self.eval(stmt.value, s), g)
@@ -827,7 +887,12 @@ class Interp:
         if isinstance(fv, LambdaV):
             return self.call_lambda(fv, args, kwargs, st)
         if isinstance(fv, Opaque):
-            return [(Opaque(fv.cls + "()"), st)]
+            hook = self.probes.get("call:" + fv.cls) or self.probes.get("call:*")
+            if hook:
+                r = hook(self, fv, args, kwargs, st, node)
+                if r is not None:
+                    return r
+            return [(Opaque(fv.cls + "()", fv.tag), st)]
         st.note(f"call of unknown callee {ast.unparse(node.func)[:50] if isinstance(node, ast.Call) else fv}")
         return [(Unknown("call"), st)]
 
